@@ -5,8 +5,25 @@ import (
 	"go/types"
 )
 
-// ruleSortedCreation: R06.2 / R11.5 / R01.4 - createAllSingletons ranges, front
-// to back, over the slice returned by TopologicalSort and constructs inside it.
+// createsVia: functions through which a call constructs an instance: createInstance
+// itself and the private helpers of eager creation that call it.
+func createsVia(w *World, ro *roles) map[*types.Func]bool {
+	out := map[*types.Func]bool{ro.createInstance.Obj: true}
+	for fi := range w.HelperClosure(map[*FuncInfo]string{ro.createAll: "eager creation"}) {
+		if fi == ro.createAll {
+			continue
+		}
+		for _, c := range callsIn(fi.Decl.Body, true) {
+			if callee(fi.Pkg.TypesInfo, c) == ro.createInstance.Obj {
+				out[fi.Obj] = true
+			}
+		}
+	}
+	return out
+}
+
+// ruleSortedCreation: R06.2 / R11.5 / R01.4 - eager creation iterates, front to
+// back, over the slice returned by TopologicalSort and constructs inside that loop.
 func ruleSortedCreation(w *World, r *Report, rule string) {
 	ro := resolveRoles(w)
 	fi := ro.createAll
@@ -28,47 +45,28 @@ func ruleSortedCreation(w *World, r *Report, rule string) {
 		r.Fail(rule, con, fi.Decl.Pos(), "%s does not obtain the topological order", fi.Name())
 		return
 	}
+	via := createsVia(w, ro)
 	found := false
-	ast.Inspect(fi.Decl.Body, func(n ast.Node) bool {
-		switch s := n.(type) {
-		case *ast.RangeStmt:
-			creates := false
-			for _, c := range callsIn(s.Body, false) {
-				if callee(info, c) == ro.createInstance.Obj {
-					creates = true
-				}
-			}
-			if !creates {
-				return true
-			}
-			found = true
-			if objOf(info, s.X) == sorted {
-				r.OK(rule, con, s.Pos(), true, "singletons are constructed inside a front-to-back range over the slice returned by TopologicalSort")
-			} else {
-				r.Fail(rule, con, s.Pos(), "singletons are constructed while ranging over %s, not over the topological order: dependencies may be constructed after their dependents", exprStr(s.X))
-			}
-		case *ast.ForStmt:
-			for _, c := range callsIn(s.Body, false) {
-				if callee(info, c) == ro.createInstance.Obj {
-					found = true
-					var iObj types.Object
-					if as, ok := s.Init.(*ast.AssignStmt); ok && len(as.Lhs) == 1 {
-						iObj = objOf(info, as.Lhs[0])
-					}
-					dir, why := "odd", "no index variable"
-					if iObj != nil {
-						dir, why = indexLoopDirection(info, s, iObj, sorted)
-					}
-					if dir == "fwd" {
-						r.OK(rule, con, s.Pos(), true, "forward index loop over the topological order")
-					} else {
-						r.Fail(rule, con, s.Pos(), "singletons are constructed by a loop that is not a front-to-back walk of the topological order (%s %s)", dir, why)
-					}
-				}
+	for _, il := range iterLoopsIn(info, fi.Decl.Body) {
+		creates := false
+		for _, c := range callsIn(il.Body, false) {
+			if cal := callee(info, c); cal != nil && via[cal] {
+				creates = true
 			}
 		}
-		return true
-	})
+		if !creates {
+			continue
+		}
+		found = true
+		switch {
+		case il.CollObj != sorted:
+			r.Fail(rule, con, il.Stmt.Pos(), "singletons are constructed while iterating over %s, not over the topological order: dependencies may be constructed after their dependents", exprStr(il.Coll))
+		case il.Dir != "fwd":
+			r.Fail(rule, con, il.Stmt.Pos(), "singletons are constructed by a loop that is not a front-to-back walk of the topological order (%s %s)", il.Dir, il.DirWhy)
+		default:
+			r.OK(rule, con, il.Stmt.Pos(), true, "singletons are constructed inside a front-to-back loop over the slice returned by TopologicalSort")
+		}
+	}
 	if !found {
 		r.Fail(rule, con, fi.Decl.Pos(), "%s contains no loop constructing singletons", fi.Name())
 	}
